@@ -39,10 +39,10 @@ theorem selfMoveAssign_contract (P : Params) (n0 : Nat) (t : Sketch) (ids0 : Lis
     · exact Or.inl (mem_owned.2 (Or.inl e))
     · exact Or.inl (mem_owned.2 (Or.inr (Or.inl e)))
 
-theorem moveAssign_contract (P : Params) (n0 : Nat) (t o : Sketch) (ids0 : List Nat) :
+theorem moveAssignCore_contract (P : Params) (n0 : Nat) (t o : Sketch) (ids0 : List Nat) :
     TripleS n0 (foot (owned t ++ owned o) n0)
       (fun h => Inv P h t ∧ Usable P h o ∧ (∀ b, b ∈ owned t → b ∉ owned o) ∧ h.ids = ids0 ∧ h.next = n0)
-      (moveAssign t o)
+      (moveAssignCore t o)
       (fun r h' => Usable P h' r.1 ∧ Inv P h' r.2 ∧ (∀ b, b ∈ owned r.1 → b ∉ owned r.2) ∧
          Owns h' ids0 (owned t ++ owned o) (owned r.1 ++ owned r.2) n0) := by
   intro h hn ⟨it, uo, dj, hid, hnx⟩
@@ -52,7 +52,7 @@ theorem moveAssign_contract (P : Params) (n0 : Nat) (t o : Sketch) (ids0 : List 
   have hts : t.self ∈ owned t := mem_owned.2 (Or.inl rfl)
   have hos : o.self ∈ owned o := mem_owned.2 (Or.inl rfl)
   have hne : t.self ≠ o.self := fun e => dj _ hts (e ▸ hos)
-  unfold moveAssign
+  unfold moveAssignCore
   apply vstep_optSwap it.self_cells (by omega : 0 < 2) io.self_cells (by omega : 0 < 2) hne (hSt _ hts) (hSo _ hos)
   intro h1 sb1 a1 b1
   apply vstep_optSwap (sb1.cells _ _ it.self_cells) (by omega : 1 < 2) (sb1.cells _ _ io.self_cells) (by omega : 1 < 2)
